@@ -196,6 +196,10 @@ htk_read_header (SF_PRIVATE *psf)
 
 	psf->sf.channels = 1 ;
 
+	/* A period of more than 10000000 (one second, in units of 100 ns) gives a sample rate of zero. */
+	if (sample_period > 10000000)
+		return SFE_MALFORMED_FILE ;
+
 	if (sample_period > 0)
 	{	psf->sf.samplerate = 10000000 / sample_period ;
 		psf_log_printf (psf, "HTK Waveform file\n  Sample Count  : %d\n  Sample Period : %d => %d Hz\n",
